@@ -535,6 +535,14 @@ func Execute(spec *Spec, opt Options) *Result {
 		strat = engine.NewRW(srng, spec.Strategy.Den)
 	case "pct":
 		strat = engine.NewPCT(srng, spec.Strategy.D, spec.Strategy.Est)
+	case "pctw":
+		// steps = yields at window sites; a fixed function of the spec
+		// estimates how many there will be
+		est := 0
+		for _, ops := range spec.Tasks {
+			est += 12 * len(ops)
+		}
+		strat = engine.NewPCTW(srng, spec.Strategy.D, est)
 	case "window":
 		strat = engine.NewWindow(srng, spec.Strategy.Den)
 	default:
